@@ -145,6 +145,15 @@ partial def parseTree? : List String → Option (PNode String × List String)
     pure (.node cs, rest)
   | _ => none
 
+/-- rebuild every node of a parsed tree through the model's `add_child` (a repeated child name
+    is refused, as the code does on every construction route) -/
+partial def viaAddChild : PNode String → Except String (PNode String)
+  | .node cs => do
+    let cs' ← cs.mapM fun (k, c) => do pure (k, ← viaAddChild c)
+    let merged ← mergeChildren [] cs'
+    pure (.node merged)
+  | t => .ok t
+
 /-! ### printing -/
 
 def showVal : Option String → String
@@ -287,9 +296,12 @@ def handlePar (args : List String) : String :=
   | "t" :: us :: qs :: toks =>
     match parseCalls? true us, parseQueries? qs, parseTree? toks with
     | some calls, some qs, some (t, []) =>
-      match runT t calls qs with
-      | some stages => "|".intercalate (stageT t qs :: stages)
-      | none => "BAD"
+      match viaAddChild t with
+      | .error _ => "ERR"
+      | .ok t =>
+        match runT t calls qs with
+        | some stages => "|".intercalate (stageT t qs :: stages)
+        | none => "BAD"
     | _, _, _ => "BAD"
   | ["h", es, ops, qs] =>
     match parseItems? es, parseOps? false ops, parseQueries? qs with
@@ -303,9 +315,12 @@ def handlePar (args : List String) : String :=
   | "ht" :: ops :: qs :: toks =>
     match parseOps? true ops, parseQueries? qs, parseTree? toks with
     | some ops, some qs, some (t, []) =>
-      match runHist updAny (fun t => stageT t qs) [t] ops with
-      | some items => "|".intercalate items
-      | none => "BAD"
+      match viaAddChild t with
+      | .error _ => "ERR"
+      | .ok t =>
+        match runHist updAny (fun t => stageT t qs) [t] ops with
+        | some items => "|".intercalate items
+        | none => "BAD"
     | _, _, _ => "BAD"
   | _ => "BAD"
 
